@@ -119,3 +119,56 @@ Example inmem_read_lock_in_mutator_rejected :
   lf_ok (mkLF "MarkAsDone" LRead true []) = false /\ lf_ok (mkLF "GetById" LRead true []) = true
   /\ lf_ok (mkLF "AddTask" LExcl true ["clock"; "insertionOrderCount"]) = false.
 Proof. repeat split. Qed.
+
+(* ---------- recovery operations ---------- *)
+(* the table rec_edge is the specification's: both operations touch exactly the dispatched tasks; revert makes them
+   scheduled and clears the dispatched stamp, cancel makes them cancelled and stamps cancelled_at *)
+Theorem rec_edge_is_the_models :
+  (forall t, state_eqb (t_state t) Dispatched = true ->
+     t_state (undispatch t) = Scheduled /\ t_dispatched (undispatch t) = None /\ t_cancelled (undispatch t) = t_cancelled t)
+  /\ (forall t, state_eqb (t_state t) Dispatched = false -> undispatch t = t)
+  /\ (forall now t, state_eqb (t_state t) Dispatched = true ->
+     t_state (cancel_if_dispatched now t) = Cancelled /\ t_cancelled (cancel_if_dispatched now t) = Some (norm now))
+  /\ (forall now t, state_eqb (t_state t) Dispatched = false -> cancel_if_dispatched now t = t).
+Proof.
+  repeat split; intros; unfold undispatch, cancel_if_dispatched; rewrite H; reflexivity.
+Qed.
+
+Theorem rec_discipline_meaning fs : rec_discipline_ok fs = true ->
+  forall n, In n rec_methods ->
+  exists f g y req pre, In f fs /\ ef_name f = n /\ rec_edge n = Some (g, y, req)
+    /\ prefix_to_exec (ef_events f) = Some pre
+    /\ ~ In EvRead (ef_events f)
+    /\ guards_of (ef_events f) = [g] /\ sets_of (ef_events f) = [y]
+    /\ (forall r, In r req -> exists e, In e pre /\ ev_eqb r e = true).
+Proof.
+  unfold rec_discipline_ok. intros H n Hn. apply andb_true_iff in H as [Hall Hpres].
+  rewrite forallb_forall in Hpres. specialize (Hpres n Hn).
+  apply existsb_exists in Hpres as (f & Hf & E). apply String.eqb_eq in E.
+  rewrite forallb_forall in Hall. specialize (Hall f Hf). unfold rec_ok in Hall. rewrite E in Hall.
+  destruct (rec_edge n) as [[[g y] req]|] eqn:RE; [|discriminate].
+  destruct (prefix_to_exec (ef_events f)) as [pre|] eqn:P; [|discriminate].
+  apply andb_true_iff in Hall as [Hall H7]. apply andb_true_iff in Hall as [Hall H6].
+  apply andb_true_iff in Hall as [Hall H5]. apply andb_true_iff in Hall as [Hall H4].
+  apply andb_true_iff in Hall as [Hall H3]. apply andb_true_iff in Hall as [H1 H2].
+  exists f, g, y, req, pre. repeat split; auto.
+  - intros Hin. apply negb_true_iff in H1.
+    assert (existsb (fun e => match e with EvRead => true | _ => false end) (ef_events f) = true) as X.
+    { apply existsb_exists. exists EvRead. split; [exact Hin | reflexivity]. }
+    congruence.
+  - destruct (guards_of (ef_events f)) as [|g' [|? ?]]; try discriminate.
+    destruct g, g'; try discriminate; reflexivity.
+  - destruct (sets_of (ef_events f)) as [|y' [|? ?]]; try discriminate.
+    destruct y, y'; try discriminate; reflexivity.
+  - intros r Hr. rewrite forallb_forall in H6. specialize (H6 r Hr). apply existsb_exists in H6. exact H6.
+Qed.
+
+Example rec_ok_current :
+  rec_discipline_ok [mkEF "CancelDispatched" [EvGuard "Dispatched"; EvSet "Cancelled"; EvStamp "CancelledAt"; EvExec];
+                     mkEF "RevertDispatched" [EvGuard "Dispatched"; EvSet "Scheduled"; EvClear "DispatchedAt"; EvExec]] = true.
+Proof. reflexivity. Qed.
+(* the pinned RevertDispatched (dispatched_at kept: F2) and a selection by time stamps instead of state are rejected *)
+Example rec_pinned_rejected :
+  rec_ok (mkEF "RevertDispatched" [EvGuard "Dispatched"; EvSet "Scheduled"; EvExec]) = false
+  /\ rec_ok (mkEF "RevertDispatched" [EvSet "Scheduled"; EvClear "DispatchedAt"; EvExec]) = false.
+Proof. split; reflexivity. Qed.
